@@ -137,5 +137,8 @@ class Extract:
         return {"toks": j["toks"]}
 
 
-TARGETS = {"codebasin.config:ArgumentParser.parse_args": Extract(clean=True),
+import native.C13 as _C13      # noqa: E402
+
+TARGETS = {"codebasin.config:load_database#sequences": _C13.Sequences(),    # extraction per entry, in databases of several entries
+           "codebasin.config:ArgumentParser.parse_args": Extract(clean=True),
            "codebasin.config:ArgumentParser.parse_args#recorded-findings": Extract(clean=False)}
